@@ -139,3 +139,33 @@ Definition fiber_in_wait (s : fstate) : bool :=
 
 Definition final (s : fstate) : bool :=
   match pm s, pf s with MDone, FDone => true | _, _ => false end.
+
+(* ------------------------------------------------------------------------- *)
+(** * Several fibers, one simulator thread *)
+
+(* Every fiber has its own mutex, flags and condition variables; the simulator thread is inside at most one
+   start()/resume()/terminate() call at a time.  A state of the n-fiber system is the list of the per-fiber
+   states, each with the simulator's control point *as far as this fiber is concerned*: the point inside the
+   call if the simulator is in a call on this fiber, else one of the resting points MInit (not started),
+   MUser (started, simulator elsewhere), MDone (destroyed). *)
+Definition resting (p : mpc) : bool := match p with MInit | MUser | MDone => true | _ => false end.
+
+Fixpoint upd_nth (j : nat) (x : fstate) (l : list fstate) : list fstate :=
+  match l, j with
+  | [], _ => []
+  | _ :: r, O => x :: r
+  | y :: r, S k => y :: upd_nth k x r
+  end.
+
+(* a step of component j; the simulator thread may ENTER a call on fiber j only when it is in no other call *)
+Definition mstep (ss ss' : list fstate) : Prop :=
+  exists j s s', nth_error ss j = Some s /\ In s' (step_all s) /\ ss' = upd_nth j s' ss /\
+    (resting (pm s) = true -> resting (pm s') = false ->
+       forall i t, i <> j -> nth_error ss i = Some t -> resting (pm t) = true).
+
+Inductive mreachable (n : nat) : list fstate -> Prop :=
+| mreach_init : mreachable n (repeat init n)
+| mreach_step : forall ss ss', mreachable n ss -> mstep ss ss' -> mreachable n ss'.
+
+(* the simulator proper runs (it is in no fiber call) *)
+Definition sim_user (ss : list fstate) : Prop := forall s, In s ss -> resting (pm s) = true.
